@@ -97,6 +97,12 @@ fn seed_of<R: SeedableRng>(bytes: &[u8]) -> Option<R::Seed> {
     Some(s)
 }
 
+static ROUTE: std::sync::atomic::AtomicUsize = std::sync::atomic::AtomicUsize::new(0);
+/// alternates between the two call routes (see common_rng_methods)
+pub fn via_trait() -> bool {
+    ROUTE.fetch_add(1, Ordering::Relaxed) % 2 == 0
+}
+
 macro_rules! common_rng_methods {
     ($name:expr) => {
         fn kind(&self) -> &'static str {
@@ -105,14 +111,21 @@ macro_rules! common_rng_methods {
         fn as_any(&self) -> &dyn Any {
             self
         }
+        // Two call routes, taken alternately: through the RngCore trait explicitly (what generic code, dyn RngCore and
+        // the TryRngCore adapters reach) and by method-call syntax on the concrete type (which an inherent method of
+        // the same name would shadow).  Both are the type's next_u32 / next_u64 / fill_bytes.
         fn next_u32(&mut self) -> Option<u32> {
-            Some(RngCore::next_u32(&mut self.0))
+            Some(if via_trait() { RngCore::next_u32(&mut self.0) } else { self.0.next_u32() })
         }
         fn next_u64(&mut self) -> Option<u64> {
-            Some(RngCore::next_u64(&mut self.0))
+            Some(if via_trait() { RngCore::next_u64(&mut self.0) } else { self.0.next_u64() })
         }
         fn fill_bytes(&mut self, d: &mut [u8]) -> bool {
-            RngCore::fill_bytes(&mut self.0, d);
+            if via_trait() {
+                RngCore::fill_bytes(&mut self.0, d);
+            } else {
+                self.0.fill_bytes(d);
+            }
             true
         }
         fn clone_box(&self) -> Option<Box<dyn Dyn>> {
@@ -272,6 +285,15 @@ macro_rules! core_common {
         }
         fn clone_box(&self) -> Option<Box<dyn Dyn>> {
             Some(Box::new(Self(self.0.clone())))
+        }
+        fn clone_from_dyn(&mut self, o: &dyn Dyn) -> bool {
+            match o.as_any().downcast_ref::<Self>() {
+                Some(x) => {
+                    self.0.clone_from(&x.0);
+                    true
+                }
+                None => false,
+            }
         }
         fn debug(&self) -> (String, String) {
             (format!("{:?}", self.0), format!("{:#?}", self.0))
